@@ -517,6 +517,32 @@ def gen_tx(rng):
              utxo("r0", "k5", 3_000_000, script=WD_NS), utxo("r1", "k5", 3_100_000, script=NS_ADDR),
              utxo("r2", "k5", 3_200_000, script=MINT_NS)]
     sc = {"utxos": utxos, "address_utxos": {"k1": ["a1", "a6"], "x0": ["a4", "a7"]}, "build": {"change": "k0"}}
+    if rng.random() < 0.07:
+        # script-only spend: no key-locked input, no collateral given — the builder takes the collateral from the potential
+        # inputs or from the UTxOs at the change address, and the key of that UTxO is required by NOTHING else
+        src = rng.choice(["address", "potential", "both"])
+        who = rng.choice([("k4", "c0"), ("x2", "c1")])
+        change = who[0] if src != "potential" else rng.choice(["k6", who[0]])
+        sc["build"] = {"change": change}
+        sc["address_utxos"] = {who[0]: [who[1]]} if src != "potential" else {}
+        ops = [{"op": "c10_spy"},
+               {"op": "script_input", "u": "p0", "script_in": "witness", "script": "p2:c10", "datum": 7,
+                "redeemer": {"data": 1, "units": [rng.randint(1000, 90000), rng.randint(1000, 9000000)]}}]
+        if src != "address":
+            ops.append({"op": "potential", "u": who[1]})
+        if rng.random() < 0.4:
+            ops.append({"op": "required_signer", "key": rng.choice(["k1", "k3", "x0"])})
+        ops.append({"op": "add_output", "addr": "k6", "coin": 2_000_000})
+        sc["ops"] = ops
+        sign = [who[0].split("+")[0]] + [o["key"] for o in ops if o["op"] == "required_signer"] + rng.sample(ALL_LABELS, rng.randint(0, 2))
+        if rng.random() < 0.15:
+            sign = sign[1:]                       # the collateral key is not offered: nothing to cover
+        rng.shuffle(sign)
+        sc["sign"] = sign
+        if rng.random() < 0.3:
+            sc["force_skeys"] = True
+        sc["family"] = "auto-collateral-foreign-key"
+        return {"kind": "tx", "sc": sc}
     ops = [{"op": "c10_spy"}, {"op": "add_input", "u": "a0"}]
     for u in ("a1", "a2", "a3", "a4", "a5"):
         if rng.random() < 0.3:
